@@ -1,7 +1,7 @@
 (* C20 — the multiplier of GivRandom is a primitive root modulo M = 2^31-1 (M prime), hence:
    the states of a valid generator are pairwise distinct over a window of M-1 calls, and the
    nonzerorandom loops of the rings terminate within floor((M-1)/p)+1 draws. *)
-From Coq Require Import ZArith Znumtheory List Lia Bool.
+From Coq Require Import ZArith Znumtheory Zpow_facts List Lia Bool.
 From C20 Require Import Params Model ProofsLcg.
 Import ListNotations.
 Local Open Scope Z_scope.
@@ -115,9 +115,10 @@ Proof.
   assert (Hu' : 1 <= u') by (unfold u', t; nia).
   assert (Heq : u' * k = g + v' * N) by (unfold u', v'; nia).
   assert (Hv' : 0 <= v') by nia.
+  clearbody u' v' t g.
   assert (E1 : P1 (u' * k)) by (apply P1_mul; [lia | lia | assumption]).
   assert (E2 : P1 (v' * N)) by (apply P1_mul; [lia | lia | apply fermat_A]).
-  unfold P1 in *. rewrite Heq in E1. rewrite Z.pow_add_r in E1 by nia.
+  unfold P1 in E1, E2 |- *. rewrite Heq in E1. rewrite Z.pow_add_r in E1 by nia.
   rewrite Z.mul_mod in E1 by discriminate. rewrite E2 in E1.
   rewrite Z.mul_1_r in E1. rewrite Z.mod_mod in E1 by discriminate. assumption.
 Qed.
@@ -144,7 +145,7 @@ Proof.
   apply Gauss in Hd; [| apply R; [apply prime_11 | assumption]].
   apply Gauss in Hd; [| apply R; [apply prime_31 | assumption]].
   apply Gauss in Hd; [| apply R; [apply prime_151 | assumption]].
-  apply D331. apply Z.divide_pos_le in Hd; [| lia].
+  apply D331.
   (* h | 331, h > 1, 331 prime -> h = 331 *)
   destruct (prime_divisors 331 prime_331 h Hd) as [E|[E|[E|E]]]; try lia. subst h. apply Z.divide_refl.
 Qed.
@@ -194,8 +195,8 @@ Proof.
   apply Gauss in D; [| apply rel_prime_M_s; assumption].
   destruct primitive_root as [_ Ho]. apply (Ho (j - i)); [lia|].
   apply Z.mod_divide in D; [| discriminate].
-  rewrite <- (Z.mod_small 1 M) by (split; reflexivity).
-  rewrite <- (Z.sub_add 1 (A ^ (j - i))). rewrite Zplus_mod, D. cbn. rewrite Z.mod_mod by discriminate. reflexivity.
+  replace (A ^ (j - i)) with ((A ^ (j - i) - 1) + 1) by ring.
+  rewrite Zplus_mod, D. reflexivity.
 Qed.
 
 Lemma lcg_iter_xs n s : valid_state s -> lcg_iter (S n) s = xs s (Z.of_nat (S n)).
